@@ -346,6 +346,8 @@ fn run_worker(
     changeset: &[(Key, Option<PageNumber>)],
     mut worker_params: WorkerParams<BranchNode>,
 ) -> std::io::Result<BranchWorkerOutput> {
+    #[cfg(feature = "verif-hooks")]
+    crate::verif::yield_point(24);
     let mut branch_updater = BranchUpdater::new(page_pool, None, None);
     let mut pending_left_request = None;
     let mut has_extended_range = false;
